@@ -362,7 +362,7 @@ func parseReplay(a args) {
 
 func hasTrims(G []gnode) bool {
 	for _, n := range G {
-		if n.K == "ltrim" || n.K == "rtrim" {
+		if n.K == "ltrim" || n.K == "rtrim" || n.K == "single" || n.K == "suppress" {
 			return true
 		}
 	}
